@@ -324,6 +324,10 @@ func registerWeb(p *Program) {
 		ro := in.newObj(rt)
 		in.setField(ro, rt, "StatusCode", in.intConst(int64(cv)))
 		in.setField(ro, rt, "Status", in.strConst(fmt.Sprintf("%d", cv)))
+		if g := in.P.Pkgs["net/http"].Var("NoBody"); g != nil { // a response always has a body to close
+			nb := in.load(Ptr{Obj: in.global(g)}, g.Type().(*types.Pointer).Elem())
+			in.setField(ro, rt, "Body", Iface{T: g.Type().(*types.Pointer).Elem(), V: nb})
+		}
 		return Tuple{Ptr{Obj: ro}, Iface{}}
 	}
 
